@@ -377,7 +377,8 @@ theorem sepAhead_goodTail (t : Str) (h : GoodTail t) : sepAhead t = true := by
   · simp [sepAhead, atEnd]
   · simp [sepAhead, atEnd]
 
-theorem matchAtom_atom (a t : Str) (ha : ValidAtom a) (ht : GoodTail t) :
+theorem matchAtom_atom' (a t : Str) (ha : ValidAtom a) (ht : t = [] ∨ ∃ c t', t = c :: t' ∧ sepChar c)
+    (hgood : sepAhead t = true) :
     ∃ m, matchAtom (a ++ t) = some m ∧ m.matched = a ∧ m.rest = t := by
   have hsh : compoundSplitShape = { pieces := [.optPre, .unit, .optPow], endAnchor := false } := rfl
   have hlook : compoundSplitLookahead = true := rfl
@@ -385,11 +386,10 @@ theorem matchAtom_atom (a t : Str) (ha : ValidAtom a) (ht : GoodTail t) :
   -- matches on `a ++ t` are the matches on `a` with `t` appended
   have hlift : matchPieces [.optPre, .unit, .optPow] { rest := a ++ t } =
       (matchPieces [.optPre, .unit, .optPow] { rest := a }).map (addRest t) := by
-    rcases ht with rfl | ⟨c, t', rfl, hc⟩
+    rcases ht with rfl | ⟨c, t', rfl, hs⟩
     · have : (addRest [] : M → M) = id := by funext m; simp [addRest]
       simp [this]
-    · have hs : sepChar c := by rcases hc with rfl | rfl <;> simp [sepChar]
-      exact matchPieces_liftF c t' hs _ { rest := a }
+    · exact matchPieces_liftF c t' hs _ { rest := a }
   obtain ⟨p, u, w, hp, hu, hw, rfl⟩ := ha
   obtain ⟨m0, hm0, hr0⟩ := atom_match_generic p u w hp hu hw []
   rw [List.append_nil] at hm0
@@ -401,7 +401,6 @@ theorem matchAtom_atom (a t : Str) (ha : ValidAtom a) (ht : GoodTail t) :
   rw [hsh, hlook]
   simp only [Bool.false_eq_true, ↓reduceIte, hlift]
   generalize matchPieces [.optPre, .unit, .optPow] { rest := p ++ u ++ w } = L at hm0 hinv
-  have hgood := sepAhead_goodTail t ht
   -- the lookahead keeps exactly the matches that consumed all of `a`
   have hfilter : (L.map (addRest t)).filter (fun m => sepAhead m.rest) =
       (L.filter fun m => m.rest.isEmpty).map (addRest t) := by
@@ -430,6 +429,13 @@ theorem matchAtom_atom (a t : Str) (ha : ValidAtom a) (ht : GoodTail t) :
     have := hinv m1 hm1L
     rw [hr1, List.append_nil] at this
     simpa [addRest] using this
+
+theorem matchAtom_atom (a t : Str) (ha : ValidAtom a) (ht : GoodTail t) :
+    ∃ m, matchAtom (a ++ t) = some m ∧ m.matched = a ∧ m.rest = t := by
+  refine matchAtom_atom' a t ha ?_ (sepAhead_goodTail t ht)
+  rcases ht with rfl | ⟨c, t', rfl, hc⟩
+  · exact Or.inl rfl
+  · exact Or.inr ⟨c, t', rfl, by rcases hc with rfl | rfl <;> simp [sepChar]⟩
 
 /-! ### split_compound on sequences of any length -/
 
@@ -514,6 +520,142 @@ theorem splitCompound_seq (a₀ : Str) (l : List (Char × Str)) (ha : ValidAtom 
   rw [splitLoop_seq l a₀ ' ' [] _ (by have := joinCompound_length l a₀; omega) ha hl]
   have hne : ' ' ≠ compoundInvertSep := by decide
   simp [expectAtoms, hne]
+
+/-! ### blanks around the separators -/
+
+def allBlank (b : Str) : Bool := b.all (· == ' ')
+
+/-- `a₀ ␣* sep₁ ␣* a₁ ␣* sep₂ ␣* a₂ …`: (blanks, separator, blanks, atom) after the first atom -/
+def joinPadded (a₀ : Str) : List (Str × Char × Str × Str) → Str
+  | [] => a₀
+  | (b1, sep, b2, a) :: l => a₀ ++ b1 ++ sep :: b2 ++ joinPadded a l
+
+def stripPads (l : List (Str × Char × Str × Str)) : List (Char × Str) := l.map fun x => (x.2.1, x.2.2.2)
+
+def ValidPadded (l : List (Str × Char × Str × Str)) : Prop :=
+  ∀ x ∈ l, allBlank x.1 = true ∧ allBlank x.2.2.1 = true ∧ (x.2.1 = '*' ∨ x.2.1 = '/') ∧ ValidAtom x.2.2.2
+
+theorem removeBlanks_append (a b : Str) : removeBlanks (a ++ b) = removeBlanks a ++ removeBlanks b := by
+  simp [removeBlanks]
+
+theorem removeBlanks_allBlank (b : Str) (h : allBlank b = true) : removeBlanks b = [] := by
+  simp only [allBlank, List.all_eq_true, beq_iff_eq] at h
+  simp only [removeBlanks, List.filter_eq_nil_iff]
+  intro x hx
+  simp [h x hx]
+
+theorem removeBlanks_noBlank' (a : Str) (h : ' ' ∉ a) : removeBlanks a = a := by
+  simp only [removeBlanks, List.filter_eq_self]
+  intro x hx
+  have : x ≠ ' ' := fun e => h (e ▸ hx)
+  simpa using this
+
+theorem validAtom_noBlank (a : Str) (ha : ValidAtom a) : ' ' ∉ a := by
+  intro h
+  have := (List.all_eq_true.mp (validAtom_atomChar a ha)) ' ' h
+  revert this; decide
+
+theorem removeBlanks_joinPadded : ∀ (l : List (Str × Char × Str × Str)) (a₀ : Str), ValidAtom a₀ →
+    ValidPadded l → removeBlanks (joinPadded a₀ l) = joinCompound a₀ (stripPads l) := by
+  intro l
+  induction l with
+  | nil => intro a₀ ha _; simpa [joinPadded, stripPads, joinCompound] using removeBlanks_noBlank' a₀ (validAtom_noBlank a₀ ha)
+  | cons x l ih =>
+    intro a₀ ha hl
+    obtain ⟨b1, sep, b2, a⟩ := x
+    obtain ⟨h1, h2, hs, hv⟩ := hl (b1, sep, b2, a) (by simp)
+    have hs' : sep = '*' ∨ sep = '/' := hs
+    have hsep : removeBlanks [sep] = [sep] := by rcases hs' with rfl | rfl <;> decide
+    have ih' := ih a hv (fun y hy => hl y (by simp [hy]))
+    have e : joinPadded a₀ ((b1, sep, b2, a) :: l) = a₀ ++ (b1 ++ ([sep] ++ (b2 ++ joinPadded a l))) := by
+      simp [joinPadded]
+    rw [e, removeBlanks_append, removeBlanks_append, removeBlanks_append, removeBlanks_append,
+      removeBlanks_noBlank' a₀ (validAtom_noBlank a₀ ha), removeBlanks_allBlank b1 h1,
+      removeBlanks_allBlank b2 h2, hsep, ih']
+    simp [stripPads, joinCompound]
+
+theorem validSeq_stripPads (l : List (Str × Char × Str × Str)) (hl : ValidPadded l) : ValidSeq (stripPads l) := by
+  intro sa hsa
+  simp only [stripPads, List.mem_map] at hsa
+  obtain ⟨x, hx, rfl⟩ := hsa
+  exact ⟨(hl x hx).2.2.1, (hl x hx).2.2.2⟩
+
+theorem rep1_blank' (s : Str) : replace [' '] [] s = removeBlanks s := by
+  induction s with
+  | nil => rfl
+  | cons c cs ih =>
+    have hlen : replace [' '] [] cs = replaceFuel (cs.length + 1) [' '] [] cs := rfl
+    by_cases hc : c = ' '
+    · subst hc
+      simp only [replace, List.length_cons, replaceFuel, removeBlanks] at *
+      simpa [List.isPrefixOf] using ih
+    · have hc' : ¬ ' ' = c := fun e => hc e.symm
+      simp only [replace, List.length_cons, replaceFuel, removeBlanks] at *
+      simpa [List.isPrefixOf, hc, hc'] using ih
+
+/-- blanks around the separators do not matter: `split_compound` returns the same atoms -/
+theorem splitCompound_padded (a₀ : Str) (l : List (Str × Char × Str × Str)) (ha : ValidAtom a₀)
+    (hl : ValidPadded l) :
+    Compound.splitCompound (joinPadded a₀ l) = some (a₀ :: expectAtoms (stripPads l)) := by
+  cases l with
+  | nil => simpa [joinPadded, stripPads, joinCompound] using splitCompound_seq a₀ [] ha (by intro x hx; cases hx)
+  | cons x l =>
+    obtain ⟨b1, sep, b2, a⟩ := x
+    obtain ⟨h1, h2, hs, hv⟩ := hl (b1, sep, b2, a) (by simp)
+    have hs' : sep = '*' ∨ sep = '/' := hs
+    have hl' : ValidPadded l := fun y hy => hl y (by simp [hy])
+    set t := b1 ++ sep :: b2 ++ joinPadded a l with ht
+    have hjoin : joinPadded a₀ ((b1, sep, b2, a) :: l) = a₀ ++ t := by simp [joinPadded, ht]
+    -- the tail starts with a blank or the separator, and the lookahead sees the separator
+    have htail : t = [] ∨ ∃ c t', t = c :: t' ∧ sepChar c := by
+      right
+      cases hb : b1 with
+      | nil => exact ⟨sep, b2 ++ joinPadded a l, by simp [ht, hb], by rcases hs' with rfl | rfl <;> simp [sepChar]⟩
+      | cons c cs =>
+        have : c = ' ' := by
+          have := (List.all_eq_true.mp h1) c (by simp [hb])
+          simpa using this
+        exact ⟨c, cs ++ sep :: b2 ++ joinPadded a l, by simp [ht, hb], by simp [sepChar, this]⟩
+    have hdrop : t.dropWhile (· == ' ') = sep :: b2 ++ joinPadded a l := by
+      have hb : ∀ x ∈ b1, (x == ' ') = true := List.all_eq_true.mp h1
+      have hsep : (sep == ' ') = false := by rcases hs' with rfl | rfl <;> decide
+      rw [ht, List.append_assoc, List.dropWhile_append_of_pos hb]
+      simp [hsep]
+    have hgood : sepAhead t = true := by
+      unfold sepAhead
+      simp only [hdrop]
+      rcases hs' with rfl | rfl <;> simp [atEnd]
+    obtain ⟨m, hm, hmm, hmr⟩ := matchAtom_atom' a₀ t ha htail hgood
+    have hrep : compoundSplitReplace = ([' '], []) := rfl
+    have hclean : replace [' '] [] t = sep :: joinCompound a (stripPads l) := by
+      have e : t = b1 ++ ([sep] ++ (b2 ++ joinPadded a l)) := by simp [ht]
+      have hsep : removeBlanks [sep] = [sep] := by rcases hs' with rfl | rfl <;> decide
+      rw [rep1_blank', e, removeBlanks_append, removeBlanks_append, removeBlanks_append,
+        removeBlanks_allBlank b1 h1, removeBlanks_allBlank b2 h2, hsep, removeBlanks_joinPadded l a hv hl']
+      simp
+    have htne : t ≠ [] := by
+      rcases htail with h | ⟨c, t', h, _⟩
+      · rw [ht] at h; simp at h
+      · rw [h]; simp
+    have hseq := splitLoop_seq (stripPads l) a sep [a₀] (a₀ ++ t).length
+      (by
+        have h1 := joinCompound_length (stripPads l) a
+        have h2 : (joinCompound a (stripPads l)).length < (replace [' '] [] t).length := by rw [hclean]; simp
+        have h3 := replaceFuel_length_le [' '] [] (by simp) (t.length + 1) t
+        have h4 : (replace [' '] [] t).length ≤ t.length := h3
+        simp only [List.length_append]
+        omega)
+      hv (validSeq_stripPads l hl')
+    unfold Compound.splitCompound
+    rw [hjoin]
+    have hne : (' ' == compoundInvertSep) = false := by decide
+    have hte : t.isEmpty = false := by
+      cases hq : t.isEmpty with
+      | false => rfl
+      | true => exact absurd (List.isEmpty_iff.mp hq) htne
+    simp only [Compound.splitCompoundLoop, hm, hmm, hmr, hrep, hclean, hte, hne, Bool.false_eq_true, ↓reduceIte,
+      List.nil_append, hseq]
+    simp [expectAtoms, stripPads]
 
 /-- the joined sequence starts with its first atom, followed by nothing or a separator -/
 theorem joinCompound_cons (a₀ : Str) (s : Char) (a : Str) (l : List (Char × Str)) :
